@@ -579,6 +579,14 @@ Apply(op, St) ==
      ELSE SRes([St EXCEPT !.m[op.t] = St.m[s], !.ctx[op.t] = <<>>, !.helper[op.t] = 0, !.sw[op.t] = St.sw[s], !.taint[op.t] = FALSE,
                           !.det[op.t] = [r \in RxU |-> NoDet]],
                "none", TRUE, NoRet)
+  \* new = m[s].merge(m[t], inplace=False, objective=obj): a copy of the left model with the right one merged into
+  \* it; neither operand changes.  The result takes the place of the right model in slot t.
+  ELSE IF op.a = "MergeNew" THEN
+     IF ~IsModel(St.m[s]) \/ ~IsModel(St.m[op.t]) \/ op.t = s \/ St.helper[s] # 0 \/ St.helper[op.t] # 0 THEN Skip(St)
+     ELSE LET r == A_Merge(St.m[s], St.m[op.t], op.obj) IN
+          SRes([St EXCEPT !.m[op.t] = r.c, !.ctx[op.t] = <<>>, !.helper[op.t] = 0, !.sw[op.t] = St.sw[s], !.taint[op.t] = FALSE,
+                          !.det[op.t] = [x \in RxU |-> NoDet]],
+               "none", TRUE, NoRet)
   ELSE IF op.a = "NewModel" THEN
      SRes([St EXCEPT !.m[s] = EmptyContent(op.solver), !.ctx[s] = <<>>, !.helper[s] = 0, !.sw[s] = FALSE, !.taint[s] = FALSE,
                      !.det[s] = [r \in RxU |-> NoDet]],
